@@ -276,6 +276,7 @@ func VerifH_uccs() {
 		}
 		if post.isRepl[i] {
 			verifAssert(post.addrTag[i] == verifAddrTag(addrs), "C20: the replacement connection of a refresh in flight missed the resolver update")
+			verifAssert(post.connects[i] > pre.connects[i], "C20: the replacement connection of a refresh in flight was not asked to (re)connect")
 		}
 	}
 	// C03(c): a resolver update creates a connection only to re-create an emptied pool, and removes none
